@@ -374,7 +374,7 @@ def encode_for_model(seq, docs=None):
     return " ".join(out)
 
 
-def run_sequence(root, docs, seq, offers=None):
+def run_sequence(root, docs, seq, offers=None, disk_extra=None):
     """drive the real binary; returns observations.  offers: the position encodings the editor offers at initialize
     (LSP 3.17 general.positionEncodings); the sequences count columns in UTF-16, so a session in which the server
     announces another encoding is skipped (obs['skipped'])"""
@@ -383,6 +383,9 @@ def run_sequence(root, docs, seq, offers=None):
     open(root + "/gleam.toml", "w").write('name = "p"\n')
     open(root + "/src/a.gleam", "w").write(DISK["f1"])
     open(root + "/src/b.gleam", "w").write(DISK["f2"])
+    for path, text in (disk_extra or {}).items():
+        os.makedirs(os.path.dirname(path), exist_ok=True)
+        open(path, "w").write(text)
     c = lsp.Lsp(root)
     obs = {"alive": True, "responses": {}, "died_at": None, "texts": {}, "dups": []}
     try:
@@ -677,6 +680,12 @@ def run_c13_blackbox(res, tier, seed):
         docs = [d, Doc("f2", "file://" + root + "/src/b.gleam"), Doc("f3", "file://" + root + "/free/c.gleam"),
                 Doc("o1", "untitled:Untitled-1"), Doc("f9", "file://" + root + "/src/never.gleam")]
         cur = rand_text(rng, rng.randrange(0, 25))
+        disk_extra = None
+        if i % 4 == 3:
+            # the document is a module outside any project (no gleam.toml above it) that exists on disk with ANOTHER content
+            # than the editor's buffer: the server analyses the editor's text
+            d = docs[2]
+            disk_extra = {root + "/free/c.gleam": "pub fn on_disk() {\n  \"" + rand_text(rng, 6).replace('"', "").replace("\\", "").replace("\r", "").replace("\n", " ") + "\"\n}\n"}
         seq = [("open", d, cur)]
         if rng.random() < 0.5:
             # another file of the package was opened before: the document is already known to the server with the
@@ -703,14 +712,14 @@ def run_c13_blackbox(res, tier, seed):
         # what the editor offers as position encodings: nothing (a client older than LSP 3.17), UTF-16 only, UTF-16 preferred
         # over others: in all of them the editor ends up counting in UTF-16 unless the server announces something else
         offers = rng.choice([None, None, ["utf-16"], ["utf-16", "utf-8"], ["utf-16", "utf-32", "utf-8"], ["utf-32", "utf-16"]])
-        jobs.append((root, docs, seq, cur, offers))
+        jobs.append((root, docs, seq, cur, offers, d.key, disk_extra))
     try:
-        observations = common.parallel_map(lambda j: run_sequence(j[0], j[1], j[2], j[4]), jobs, workers=min(common.NCPU, 12))
+        observations = common.parallel_map(lambda j: run_sequence(j[0], j[1], j[2], j[4], j[6]), jobs, workers=min(common.NCPU, 12))
     finally:
         shutil.rmtree(base, ignore_errors=True)
     multi = 0
     skipped = 0
-    for (root, docs, seq, cur, offers), obs in zip(jobs, observations):
+    for (root, docs, seq, cur, offers, dkey, disk_extra), obs in zip(jobs, observations):
         if obs.get("skipped"):
             skipped += 1
             continue
@@ -721,10 +730,11 @@ def run_c13_blackbox(res, tier, seed):
         if not obs["alive"]:
             res.add_violation("C13/server-died-on-valid-edits", f"the server ended after message {obs['died_at']}", replay)
             continue
-        got = obs["texts"].get("f1")
+        got = obs["texts"].get(dkey)
         exp = p_text.strip_cr(cur)
         if got != exp:
-            res.add_violation("C13/blackbox-text-diverged", f"after valid edits the server analyses {got!r}, the editor holds {exp!r}", replay)
+            res.add_violation("C13/blackbox-text-diverged", f"after valid edits the server analyses {got!r}, the editor holds {exp!r}"
+                              + (" (a module outside any project, on disk with another content)" if disk_extra else ""), replay)
     res.cov["blackbox_sequences"] = n_seq
     res.cov["blackbox_skipped_other_encoding"] = skipped
     res.cov["blackbox_multi_change_notifications"] = multi
